@@ -869,6 +869,13 @@ async def run(*coroutines: Coroutine, catch_sigterm: bool = True) -> None:
         if not simtask.done():
             # a cancel could abort the cleanup
             circuit.abort(asyncio.CancelledError("shutdown"))
+        # wait for the (time limited) cleanup with the signal handler still installed;
+        # a repeated stop request (SIGTERM, cancel) must not abort the cleanup
+        while not simtask.done():
+            try:
+                await asyncio.wait([simtask])
+            except asyncio.CancelledError:
+                pass
 
     # -- end with _TerminatingSignal --
 
